@@ -1,6 +1,7 @@
 #ifndef PRIVATE_EMAIL_H
 #define PRIVATE_EMAIL_H
 
+#include <strings.h>
 #include "auto_tld.h"
 
 #ifdef HAVE_IDNKIT
@@ -87,8 +88,11 @@
         result->is_ipv4 = true; \
     } \
     else { /* try ipv6 */ \
+        /* RFC 5321, 4.1.3: the only tag is "IPv6:" */ \
         ch = strchr (brs + 1, ':'); \
-        if ((ch == NULL) || (is_ipaddr (ch + 1, bre) == 0)) { \
+        if ((ch == NULL) || (ch - brs != 5) || \
+            (strncasecmp (brs + 1, "IPv6", 4) != 0) || \
+            (is_ipv6 (ch + 1, bre) == 0)) { \
             result->rc = inverse(EEAV_IPADDR_INVALID); \
             return result; \
         } \
